@@ -33,7 +33,7 @@ ASSUMPTIONS = [
 ]
 
 KEYS = ('transport', 'pib', 'tpm')
-LOC_KINDS = ['none', 'abs-existing', 'rel-conf-existing', 'rel-cwd-existing', 'missing-abs', 'missing-rel']
+LOC_KINDS = ['none', 'abs-existing', 'rel-conf-existing', 'rel-cwd-existing', 'rel-both-existing', 'missing-abs', 'missing-rel']
 
 
 class Sandbox:
@@ -85,6 +85,13 @@ def materialise_loc(sb, kind, tag, conf_dir):
             return rel, 'MISSING'
         os.makedirs(os.path.join(conf_dir, rel), exist_ok=True)
         return rel, os.path.join(conf_dir, rel)
+    if kind == 'rel-both-existing':
+        # the same relative name exists under the working directory AND next to the config file: it exists, so it is used as given
+        rel = f'bothstore-{tag}'
+        os.makedirs(os.path.join(sb.cwd, rel), exist_ok=True)
+        if conf_dir is not None:
+            os.makedirs(os.path.join(conf_dir, rel), exist_ok=True)
+        return rel, rel
     if kind == 'rel-cwd-existing':
         rel = f'cwdstore-{tag}'
         os.makedirs(os.path.join(sb.cwd, rel), exist_ok=True)
@@ -241,6 +248,23 @@ def _run(sb, case, r):
             except Exception as e:
                 if known:
                     r.bad(f'C20/keychain/raised/{type(e).__name__}', repr(e))
+    # the configuration file is replaced (same path, modification time NOT newer) and read again in the same process
+    if not r.violations and case.get('reread') and first is not None and 'transport' not in env_vals:
+        new_t = 'tcp://192.0.2.7:7777'
+        vals2 = dict(file_values[first], transport=new_t)
+        fs2 = dict(case['files'][first])
+        if not _key_written(fs2, 'transport'):
+            fs2 = dict(fs2, lines=fs2['lines'] + [['kv', 'transport', 0]])
+        st0 = os.stat(cand[first])
+        with open(cand[first], 'w') as f:
+            f.write(render_file(fs2, vals2))
+        os.utime(cand[first], ns=(st0.st_atime_ns, st0.st_mtime_ns - case['reread'] * 10 ** 9))
+        try:
+            got2 = client_conf.read_client_conf()
+            if got2['transport'] != new_t:
+                r.bad('C20/transport/stale-after-config-file-replaced', f'got {got2["transport"]!r} want {new_t!r}')
+        except Exception as e:
+            r.bad(f'C20/read_client_conf-raised/{type(e).__name__}', repr(e))
     multi = any(n >= 2 for _s, n in sources.values())
     rel = any(_loc_kind(case, k, sources[k][0], first).startswith('rel') for k in ('pib', 'tpm'))
     pattern = (tuple(f is not None for f in case['files']), tuple(k in env_vals for k in KEYS),
@@ -298,7 +322,7 @@ def _case(draw):
             'env': {'transport': draw(st.one_of(st.none(), _TRANSPORTS)), 'pib': draw(st.one_of(st.none(), _PIB)),
                     'tpm': draw(st.one_of(st.none(), _TPM))},
             'default_exists': {'pib': [draw(st.booleans()), draw(st.booleans())], 'tpm': [draw(st.booleans()), draw(st.booleans())]},
-            'open_keychain': draw(st.booleans())}
+            'open_keychain': draw(st.booleans()), 'reread': draw(st.sampled_from([None, None, 0, 5]))}
 
 
 def _grid(tier):
